@@ -797,8 +797,24 @@ class FuncEval:
             return self.global_val(n)
         out = []
         for d in defs:
-            out.append(self.def_val(d))
+            last = self._loop_var_after_literal_loop(d, at)
+            out.append(self.eval(last) if last is not None else self.def_val(d))
         return join(*out)
+
+    def _loop_var_after_literal_loop(self, d: Def, at: ast.AST) -> Optional[ast.AST]:
+        """`for x in (a, b): ...` without break: after the loop x is b (not 'a or b')."""
+        if d.kind != "for" or not isinstance(d.binder, ast.For) or not isinstance(d.target, ast.Name):
+            return None
+        it = d.binder.iter
+        if not isinstance(it, (ast.Tuple, ast.List)) or not it.elts or any(isinstance(e, ast.Starred) for e in it.elts):
+            return None
+        inside = any(a is d.binder for a in self.ix.ancestors(at)) or at is d.binder
+        if inside:
+            return None
+        for x in ast.walk(d.binder):
+            if isinstance(x, ast.Break):
+                return None
+        return it.elts[-1]
 
     def global_val(self, n: ast.Name) -> Val:
         p = self.fi.parent
